@@ -427,6 +427,7 @@ type c53RunOut struct {
 	crashed  bool
 	timedOut bool
 	stderr   string
+	cpu      time.Duration // user+system CPU time of the worker process
 }
 
 func (p *c53Parent) spawn(spec c53Spec, idle time.Duration) c53RunOut {
@@ -485,6 +486,9 @@ func (p *c53Parent) spawn(spec c53Spec, idle time.Duration) c53RunOut {
 	werr := cmd.Wait()
 	close(stop)
 	o := c53RunOut{lastP: int(lastP.Load()), stderr: strings.Join(tail, " | "), timedOut: timedOut.Load()}
+	if ps := cmd.ProcessState; ps != nil {
+		o.cpu = ps.UserTime() + ps.SystemTime()
+	}
 	var res c53Result
 	if werr == nil && json.Unmarshal(bytes.TrimSpace(stdout.Bytes()), &res) == nil {
 		if res.Err != "" {
@@ -540,7 +544,13 @@ func (p *c53Parent) runRange(dec string, lo, hi int, crashes *int) {
 		if bad > blo {
 			p.runRange(dec, blo, bad, crashes)
 		}
-		if s.timedOut {
+		if s.timedOut && s.cpu >= 90*time.Second {
+			// not a starved machine: the single-stepped worker burnt more than 90 s of
+			// CPU on this one case (every other case of the block takes microseconds)
+			p.mu.Lock()
+			p.fails[dec] = append(p.fails[dec], c53Fail{Idx: bad, Kind: "hang", Site: "-", Msg: "one input kept the decoder computing for more than 90 CPU-seconds without a result"})
+			p.mu.Unlock()
+		} else if s.timedOut {
 			p.mu.Lock()
 			p.hangs = append(p.hangs, fmt.Sprintf("%s case %d", dec, bad))
 			p.mu.Unlock()
@@ -579,7 +589,7 @@ func runC53(c *fw.Ctx) {
 	c.Bound("step_budget", "4096 + 64 x input bytes Read/ReadAt/Seek calls")
 	c.Bound("alloc_budget", "64 MiB + 64 x input bytes (runtime/metrics /gc/heap/allocs:bytes delta in a single-threaded worker process, RLIMIT_AS 3 GiB)")
 	c.SetRule("for every decoder: all byte strings of length <= 2, all strings up to the reduced-alphabet bound embedded in each of the decoder's templates (pkt-line framed where the decoder reads pkt-lines), and every truncation / substitution / window overwrite of every seed (git-made and go-git-made valid artefacts plus the repository's fuzz seeds); each case runs once in a worker subprocess with recover, a read-step budget and an allocation budget; a class is (decoder, neighbourhood kind, normalised error text or ok) and is non-trivial because it identifies a distinct decoder path that was reached")
-	c.Assume("wall-clock is used only as a watchdog (120 s per case) and yields 'inconclusive', never a violation")
+	c.Assume("wall-clock is used only as a watchdog (120 s without progress): a stalled case is a violation (kind hang) only when the single-stepped worker also consumed more than 90 s of CPU time on it, otherwise it is 'inconclusive'")
 
 	p := &c53Parent{c: c, exe: exe, seedDir: seedDir, strLen: strLen, fails: map[string][]c53Fail{}, classes: map[string]int{}}
 	type shard struct {
